@@ -928,6 +928,9 @@ def c20(ctx):
     pick = lambda prefix: {k[len(prefix):]: v for k, v in agg.counts.items() if k.startswith(prefix)}
     extras = dict(cases=n("cases"), steps=n("steps"), opens=n("opens"), keys_compared=n("keys_compared"),
                   refused_second_opens=pick("refused_second_open_"), failed_opens=pick("failed_open_"),
+                  forked_child_attempts=n("forked_child_attempts"),
+                  forked_child_watchdog_expired_inconclusive=n("forked_child_watchdog_expired"),
+                  copies_written_to_for_independence=n("copies_written_to_for_independence"),
                   opens_after_failed_open=n("opens_after_failed_open"),
                   refused_copy_of_open_db=n("refused_copy_of_open_db"), refused_destroy_of_open_db=n("refused_destroy_of_open_db"),
                   backups=n("backups"), backups_by_state=pick("backups_state_"),
